@@ -21,6 +21,7 @@ import (
 
 type e2ePeer struct {
 	p        *peer.Peer
+	conn     *xconn
 	remote   net.Conn
 	fromPeer chan protocol.Message
 	rdone    chan struct{}
@@ -36,8 +37,8 @@ const e2eWait = 10 * time.Second
 
 func (w *world) e2eNew(fast bool) *e2ePeer {
 	c1, c2 := net.Pipe()
-	ep := &e2ePeer{remote: c2}
-	ep.p = peer.New("", c1, netip.AddrPort{}, true, protocol.HandshakeResult{Hash: w.t.Hash, Id: w.t.MyId, Fast: fast})
+	ep := &e2ePeer{remote: c2, conn: &xconn{Conn: c1}}
+	ep.p = peer.New("", ep.conn, netip.AddrPort{}, true, protocol.HandshakeResult{Hash: w.t.Hash, Id: w.t.MyId, Fast: fast})
 	ep.p.Log.SetOutput(io.Discard)
 	ep.p.Pieces = &w.t.Pieces
 	ep.torEvent = make(chan peer.TorEvent, 4096)
@@ -229,6 +230,9 @@ func (w *world) e2e(n int) (string, string) {
 		}
 		if k, d := count("exit"); k != "" {
 			return k, d
+		}
+		if !ep.conn.closed.Load() {
+			return "conn-not-closed:e2e-exit", "Run returned without closing the connection"
 		}
 	}
 	return "", ""
